@@ -345,8 +345,10 @@ class Monitor:
         """ret: value returned; exc: exception raised by read (a torn json line does that)."""
         ctx = ctx or {}
         lst = self.last.get(o, UNKNOWN)
+        # a torn record in a history in which a log file was truncated by a roll-over is that defect at work
+        trunc = ctx.get('truncated') or self.counts.get('overwrite', 0) > 0
         if exc is not None:
-            k = OVERWRITE_KIND if ctx.get('truncated') else 'torn'
+            k = OVERWRITE_KIND if trunc else 'torn'
             self._count('read_exc')
             self._viol('C13_ExactlyOnceInOrder', f'{o}.read raised {exc!r}: torn record',
                        {'kind': k, 'formula': 'ExactlyOnce', 'what': 'torn'})
@@ -358,8 +360,7 @@ class Monitor:
             self._count('read_none')
             if ret is not None and raw:
                 self._viol('C13_ExactlyOnceInOrder', f'{o} got unparseable data {raw!r}',
-                           {'kind': OVERWRITE_KIND if ctx.get('truncated') else 'torn', 'formula': 'ExactlyOnce',
-                            'what': 'torn'})
+                           {'kind': OVERWRITE_KIND if trunc else 'torn', 'formula': 'ExactlyOnce', 'what': 'torn'})
                 return
             if (o in self.autoref or o == W) and lst != UNKNOWN and ctx.get('unchanged'):      # NoneOK
                 ondisk = self.on_disk()
@@ -396,7 +397,7 @@ class Monitor:
                                    f'{"are on disk" if set(guilty) & ondisk else "were destroyed by an overwrite"}')
         if bad:
             what, text = bad
-            known = bool(involved & self.taint_ids) or ctx.get('truncated')
+            known = bool(involved & self.taint_ids) or ctx.get('truncated') or (what == 'torn' and trunc)
             sig = {'kind': OVERWRITE_KIND if known else what, 'formula': 'ExactlyOnce', 'what': what}
             if not known and what == 'skip':
                 sig['reader_autorefresh'] = o in self.autoref
